@@ -526,6 +526,149 @@ theorem C10_bfs_correct (s : Store) (nb : Nat → List Nat) (x : Nat) (out : Lis
     simp only [Store.getAllNodeNames, Store.numNodes, List.length_map, List.length_nil]
     omega
 
+/-! ### the search since the F24 repair: every level visited in name order -/
+
+private theorem mem_isort' {α} (le : α → α → Bool) (y : α) (l : List α) : y ∈ isort le l ↔ y ∈ l := by
+  induction l with
+  | nil => simp [isort]
+  | cons a t ih =>
+    have hins : ∀ (m : List α), y ∈ insertSorted le a m ↔ y = a ∨ y ∈ m := by
+      intro m
+      induction m with
+      | nil => simp [insertSorted]
+      | cons b u ihu =>
+        unfold insertSorted
+        split
+        · simp
+        · simp only [List.mem_cons, ihu]; tauto
+    show y ∈ insertSorted le a (isort le t) ↔ y ∈ a :: t
+    rw [hins, ih, List.mem_cons]
+
+private theorem mem_sortNat' (y : Nat) (l : List Nat) : y ∈ sortNat l ↔ y ∈ l := mem_isort' _ y l
+
+private theorem bfsLevelsOrdered_succ (s : Store) (fuel : Nat) (level seen ret : List Nat) :
+    s.bfsLevelsOrdered (fuel + 1) level seen ret =
+      if level.isEmpty then .ok ret
+      else match (sortNat level).foldl (bfsStep s) (.ok (seen, ret, [])) with
+        | .ok (seen, ret, next) => s.bfsLevelsOrdered fuel next seen ret
+        | .err k => .err k
+        | .panic site => .panic site := by
+  rw [Store.bfsLevelsOrdered]
+  rfl
+
+private theorem bfs_outer_ordered (s : Store) (nb : Nat → List Nat) (x : Nat)
+    (hok : ∀ v, ReachR nb x v → ∃ l, s.getSuccessorsOrNeighbors v = .ok l)
+    (hnbl : ∀ v, ReachR nb x v → ∀ z, z ∈ nblOf s v ↔ z ∈ nb v)
+    (hnames : ∀ v, ReachR nb x v → v ∈ s.getAllNodeNames) :
+    ∀ (fuel : Nat) (level seen ret out : List Nat),
+      ret.Nodup → (∀ y, y ∈ seen ↔ y ∈ ret) → (∀ y ∈ ret, ReachR nb x y) →
+      (∀ y ∈ level, ReachR nb x y) →
+      (∀ y ∈ ret, ∀ z ∈ nb y, z ∈ ret ∨ z ∈ level) →
+      ((ret = [] ∧ level = [x]) ∨ ret.head? = some x) →
+      ((∀ y ∈ level, y ∈ ret) ∨ s.getAllNodeNames.length < ret.length + fuel) →
+      s.bfsLevelsOrdered fuel level seen ret = .ok out →
+      out.head? = some x ∧ out.Nodup ∧ ∀ y, y ∈ out ↔ ReachR nb x y := by
+  intro fuel
+  induction fuel with
+  | zero =>
+    intro level seen ret out hnd hsr hret hlevel hclos hhead hfuel h
+    rw [Store.bfsLevelsOrdered] at h
+    cases h
+    have hlen : ret.length ≤ s.getAllNodeNames.length :=
+      (hnd.subperm (fun y hy => hnames y (hret y hy))).length_le
+    rcases hfuel with hdone | hlt
+    · exact bfs_final nb x level ret hnd hret hclos hhead hdone
+    · omega
+  | succ fuel ih =>
+    intro level seen ret out hnd hsr hret hlevel hclos hhead hfuel h
+    rw [bfsLevelsOrdered_succ] at h
+    by_cases hemp : level.isEmpty = true
+    · rw [if_pos hemp] at h
+      cases h
+      have hl : level = [] := List.isEmpty_iff.mp hemp
+      exact bfs_final nb x level ret hnd hret hclos hhead (by rw [hl]; intro y hy; cases hy)
+    · rw [if_neg hemp, bfsFold_ok s (sortNat level) (fun v hv => hok v (hlevel v ((mem_sortNat' v level).1 hv)))] at h
+      obtain ⟨seen', ret', next', hf, h1, h2, h3, h4, ⟨ext, hext, hextm⟩, h6, _, h8, h9⟩ :=
+        level_inv nb (nblOf s) x hnbl (sortNat level) seen ret [] hnd hsr hret (by intro y hy; cases hy)
+          (fun y hy => hlevel y ((mem_sortNat' y level).1 hy))
+      rw [hf] at h
+      have hsub : ∀ y ∈ ret, y ∈ ret' := fun y hy => by rw [hext]; exact List.mem_append_left _ hy
+      refine ih next' seen' ret' out h1 h2 h3 h4 ?_ ?_ ?_ h
+      · intro y hy z hz
+        rcases h8 y hy with hyr | hnew
+        · rcases hclos y hyr z hz with hz' | hz'
+          · exact Or.inl (hsub z hz')
+          · exact Or.inl (h6 z ((mem_sortNat' z level).2 hz'))
+        · exact Or.inr (hnew z hz)
+      · right
+        rcases hhead with ⟨hr, hl⟩ | hh
+        · subst hr
+          rw [List.nil_append] at hext
+          subst hext
+          have hxr : x ∈ ret' := h6 x ((mem_sortNat' x level).2 (by rw [hl]; exact List.mem_singleton.mpr rfl))
+          cases ret' with
+          | nil => cases hxr
+          | cons a t =>
+            have : a ∈ level := (mem_sortNat' a level).1 (hextm a List.mem_cons_self)
+            rw [hl, List.mem_singleton] at this
+            rw [this]; rfl
+        · cases ret with
+          | nil => cases hh
+          | cons a t =>
+            rw [hext]
+            exact hh
+      · rcases h9 with ⟨_, hn⟩ | hlt
+        · left; rw [hn]; intro y hy; cases hy
+        · right
+          rcases hfuel with hdone | hf'
+          · exfalso
+            cases ext with
+            | nil => rw [hext, List.append_nil] at hlt; omega
+            | cons a t =>
+              have ha : a ∈ ret := hdone a ((mem_sortNat' a level).1 (hextm a List.mem_cons_self))
+              rw [hext, List.nodup_append] at h1
+              exact h1.2.2 a ha a List.mem_cons_self rfl
+          · omega
+
+/-- **the ordered search (the code since the F24 repair: `this_level.sort()`) is correct on every graph** - start node first, every
+    reachable node exactly once - and, being a function of the store and the start node alone, returns the same list on every call.  `nb` is the neighbour function `get_successors_or_neighbors` computes (C02 relates it
+    to the edge list); `names` are the node names. -/
+theorem C10_bfs_ordered_correct (s : Store) (nb : Nat → List Nat) (x : Nat) (out : List Nat)
+    (hnd : s.getAllNodeNames.Nodup) (hx : x ∈ s.getAllNodeNames)
+    (hnb : ∀ y ∈ s.getAllNodeNames, ∃ l, s.getSuccessorsOrNeighbors y = .ok l ∧
+              (∀ z, z ∈ l.map (·.name) ↔ z ∈ nb y) ∧ (∀ z ∈ nb y, z ∈ s.getAllNodeNames))
+    (h : s.breadthFirstSearchOrdered x = .ok out) :
+    out.head? = some x ∧ out.Nodup ∧ ∀ y, y ∈ out ↔ ReachR nb x y := by
+  have _ := hnd  -- not needed: the length bound uses only that the output is duplicate-free
+  have hnames : ∀ v, ReachR nb x v → v ∈ s.getAllNodeNames := by
+    intro v hv
+    induction hv with
+    | refl => exact hx
+    | step _ hz ih =>
+      obtain ⟨_, _, _, h3⟩ := hnb _ ih
+      exact h3 _ hz
+  have hok : ∀ v, ReachR nb x v → ∃ l, s.getSuccessorsOrNeighbors v = .ok l := by
+    intro v hv
+    obtain ⟨l, hl, _⟩ := hnb v (hnames v hv)
+    exact ⟨l, hl⟩
+  have hnbl : ∀ v, ReachR nb x v → ∀ z, z ∈ nblOf s v ↔ z ∈ nb v := by
+    intro v hv z
+    obtain ⟨l, hl, h2, _⟩ := hnb v (hnames v hv)
+    unfold nblOf
+    rw [hl]
+    exact h2 z
+  unfold Store.breadthFirstSearchOrdered at h
+  refine bfs_outer_ordered s nb x hok hnbl hnames (s.numNodes + 2) [x] [] [] out List.nodup_nil
+    (fun y => Iff.rfl) (by intro y hy; cases hy) ?_ (by intro y hy; cases hy)
+    (Or.inl ⟨rfl, rfl⟩) ?_ h
+  · intro y hy
+    rw [List.mem_singleton] at hy
+    subst hy
+    exact ReachR.refl _
+  · right
+    simp only [Store.getAllNodeNames, Store.numNodes, List.length_map, List.length_nil]
+    omega
+
 /-- The full statement for `strongly_connected_components` as first written (kept visible). Its content is proved, under the
     coupling invariant, as `C10_model_strong_components` (Props/C10Model.lean), phrased with `ReachR` instead of the Boolean
     checker. -/
